@@ -353,6 +353,16 @@ package state
 //@   ensures (err == nil) == (result0 != nil)
 //@   note cached load of the account through the state accessor (the cache map is the only thing written)
 
+//@ func StakeAccumulatorCache.RemoveStakeClaim
+//@   trusted
+//@   modifies c.accounts, anyOf(c.accounts[addr].Escrow.StakeAccumulator.Claims)
+//@   note writes the cached copy of the account's stake accumulator only (frame assumed); nothing reaches the state tree before Commit
+
+//@ func StakeAccumulatorCache.Commit
+//@   trusted
+//@   modifies kvState()
+//@   note writes the cached accounts back through the staking state accessors (frame assumed)
+
 //@ func StakeAccumulatorCache.CheckStakeClaims
 //@   props C10 C14
 //@   ensures-local err != nil && defined(acct) && acct != nil && staking.TotalClaimsOK(&acct.Escrow.StakeAccumulator, c.thresholds, nil) ==> err == staking.ErrInsufficientStake
